@@ -1,0 +1,55 @@
+/*
+ * Verification hooks. Compiled in only with -DLIBCBOR_VERIF; without that
+ * define this header is never included and the library is unchanged.
+ *
+ * cbor_load reports every iteration of its decoding loop (right after
+ * cbor_stream_decode returned, i.e. after the builder callback has run) and
+ * every return to `cbor_verif_load_hook` when a test installs one.
+ */
+#ifndef LIBCBOR_VERIF_HOOKS_H
+#define LIBCBOR_VERIF_HOOKS_H
+
+#ifdef LIBCBOR_VERIF
+
+#include "cbor/common.h"
+#include "cbor/internal/builder_callbacks.h"
+#include "cbor/internal/stack.h"
+
+#ifdef __cplusplus
+extern "C" {
+#endif
+
+enum cbor_verif_load_event_kind {
+  CBOR_VERIF_LOAD_STEP_EVENT = 0,
+  CBOR_VERIF_LOAD_RETURN_EVENT = 1
+};
+
+struct cbor_verif_load_event {
+  enum cbor_verif_load_event_kind kind;
+  /* Input of cbor_load */
+  cbor_data source;
+  size_t source_size;
+  /* STEP: window handed to cbor_stream_decode is source + offset,
+   * source_size - offset; its result */
+  size_t offset;
+  const struct cbor_decoder_result* decode_result;
+  /* NULL on the NODATA early return */
+  const struct _cbor_stack* stack;
+  const struct _cbor_decoder_context* context;
+  /* The caller's result struct as it stands */
+  const struct cbor_load_result* result;
+  /* RETURN: the item about to be returned (NULL on failure) */
+  const cbor_item_t* item;
+};
+
+typedef void (*cbor_verif_load_hook_t)(const struct cbor_verif_load_event*);
+
+/* NULL unless a test installs a hook */
+CBOR_EXPORT extern cbor_verif_load_hook_t cbor_verif_load_hook;
+
+#ifdef __cplusplus
+}
+#endif
+
+#endif /* LIBCBOR_VERIF */
+#endif /* LIBCBOR_VERIF_HOOKS_H */
